@@ -234,7 +234,7 @@ package keeper
 //@   requires forall k bytes :: Validators[k] != None ==> addrOK(2, val(Validators[k]).OperatorAddress) && addrBytes(2, val(Validators[k]).OperatorAddress) == k   // INV_VAL K1
 //@   requires forall k bytes :: LastValidatorPowers[k] != None ==> Validators[k] != None                                                                          // INV_VAL K2
 //@   requires forall k bytes :: Validators[k] != None ==> val(Validators[k]).ConsPower >= 0                                                                       // INV_VAL K3
-//@   requires forall k bytes :: Validators[k] != None ==> val(Validators[k]).ConsensusPubkey != nil && implements(val(val(Validators[k]).ConsensusPubkey).cachedValue, "github.com/cosmos/cosmos-sdk/crypto/types.PubKey")    // INV_VAL K4
+//@   requires forall k bytes :: Validators[k] != None ==> implements(val(val(Validators[k]).ConsensusPubkey).cachedValue, "github.com/cosmos/cosmos-sdk/crypto/types.PubKey")    // INV_VAL K4
 //@   ensures err == nil                                                                                                                                           // C14,C13: update_computation_never_fails_on_consistent_state
 //@   ensures err == nil ==> forall k bytes :: V0[k] != None && val(V0[k]).ConsPower > 0 ==> Validators[k] == V0[k] && LastValidatorPowers[k] == Some(val(V0[k]).ConsPower)   // C13: bonded_validators_recorded_with_their_power
 //@   ensures err == nil ==> forall k bytes :: L0[k] != None && val(V0[k]).ConsPower <= 0 ==> Validators[k] == None && LastValidatorPowers[k] == None                      // C13: removed_validator_gone_by_end_of_block
@@ -274,7 +274,7 @@ package keeper
 //@   ensures err == nil ==> LastValidatorPowers == old(LastValidatorPowers)
 //@   ensures err == nil ==> Params != None && old(Params) != None && val(Params).BridgeExecutors == plan.NextExecutors && val(Params).Admin == val(old(Params)).Admin
 //@        && val(Params).MaxValidators == val(old(Params)).MaxValidators && val(Params).HookMaxGas == val(old(Params)).HookMaxGas          // C14: executors_replaced_exactly
-//@   ensures old(Params) != None && addrOK(2, nv.OperatorAddress) && nv.ConsensusPubkey != nil && implements(val(nv.ConsensusPubkey).cachedValue, "github.com/cosmos/cosmos-sdk/crypto/types.PubKey")
+//@   ensures old(Params) != None && addrOK(2, nv.OperatorAddress) && implements(val(nv.ConsensusPubkey).cachedValue, "github.com/cosmos/cosmos-sdk/crypto/types.PubKey")
 //@        && addrOK(1, val(old(Params)).Admin) && decCoinsValid(val(old(Params)).MinGasPrices) && val(old(Params)).MaxValidators != 0
 //@        && (forall j int :: 0 <= j && j < len(val(old(Params)).FeeWhitelist) ==> addrOK(1, val(old(Params)).FeeWhitelist[j]))
 //@        && (forall j int :: 0 <= j && j < len(plan.NextExecutors) ==> addrOK(1, plan.NextExecutors[j])) ==> err == nil                    // C14: well_formed_plan_always_applies
@@ -387,6 +387,7 @@ package keeper
 //@   loop 0 invariant forall j int :: 0 <= j && j < $i ==> Validators[addrBytes(2, vs[j].OperatorAddress)] == Some(vs[j])
 //@   loop 0 invariant forall k bytes :: Validators[k] != None ==> (exists j int :: 0 <= j && j < $i && k == addrBytes(2, vs[j].OperatorAddress) && Validators[k] == Some(vs[j]) && addrOK(2, vs[j].OperatorAddress))
 //@   loop 0 invariant forall k bytes :: LastValidatorPowers[k] == None
+//@   loop 0 invariant forall j int :: 0 <= j && j < $i ==> implements(val(vs[j].ConsensusPubkey).cachedValue, "github.com/cosmos/cosmos-sdk/crypto/types.PubKey")   // K4: the key index could be written
 //@   loop 1 invariant 0 <= $i && $i <= len(lv) && len(res) == $i
 //@   loop 1 invariant forall j int :: 0 <= j && j < $i ==> res[j].Power == lv[j].Power && LastValidatorPowers[addrBytes(2, lv[j].Address)] != None
 //@   loop 2 invariant 0 <= $i && $i <= len(data.DenomPairs)
